@@ -180,11 +180,11 @@ Proof.
   assert (Hde : m_dense st = None).
   { unfold flush in HL. rewrite Hd in HL. destruct (m_dense st) as [[[? ?] ?]|]; [destruct (m_keep st); discriminate | reflexivity]. }
   assert (Hk : m_keep st = []) by (rewrite (flush_none st Hd Hde) in HL; exact HL).
-  unfold mul_step in Hstep. rewrite ?Hd, ?Hde in Hstep.
-  destruct x; try discriminate; rewrite ?Hd, ?Hde in Hstep;
+  unfold mul_step in Hstep. rewrite ?Hd, ?Hde, ?HL in Hstep.
+  destruct x; try discriminate; rewrite ?Hd, ?Hde, ?HL in Hstep;
     inversion Hstep; subst; clear Hstep; cbn [m_diag m_dense m_ident];
     (split; [first [now left | now right]|]); (split; [reflexivity|]);
-    unfold flush; cbn [m_diag m_dense m_keep]; rewrite ?HL, ?Hk; reflexivity.
+    unfold flush; cbn [m_diag m_dense m_keep]; rewrite ?Hk; reflexivity.
 Qed.
 
 Lemma forallb_app_single {A} (f : A -> bool) l x : forallb f (l ++ [x]) = forallb f l && f x.
@@ -237,7 +237,8 @@ Proof.
       { intros E0. destruct Hsv as [E1 _]. rewrite Hs', E0 in E1. discriminate. }
       split; [exact Hone'|]. split.
       * intros _. split; [apply app_nonempty|].
-        rewrite EL in *. eapply inv_append; eauto. discriminate.
+        rewrite EL in Hsv.
+        apply (inv_append rho p (l0 :: lr) x (flush st')); [exact Hp | discriminate | exact E | exact Hsv].
       * intros E0. congruence.
 Qed.
 
@@ -325,6 +326,82 @@ Qed.
 Lemma check_mul_nonempty l : check_matching_mul_sizes l = Ok tt -> l <> [].
 Proof. intros H ->. discriminate. Qed.
 
+(* the general branch of matrix_mul (two or more arguments) *)
+Definition mul_body (args : list marg) : res mexpr :=
+  let '(scalar, expanded) := expand_mul args e1 [] in
+  do _ <- check_matching_mul_sizes expanded;
+  match first_zero_arg args with
+  | Some z => Ok z
+  | None =>
+      do st <- foldM mul_step expanded {| m_keep := []; m_diag := None; m_dense := None; m_ident := None |};
+      let keep := flush st in
+      match keep, m_ident st with
+      | [x], _ => if e_eqb scalar e1 then Ok x else Ok (MMul scalar keep)
+      | [], Some n => Ok (MIdent n)
+      | _, _ => Ok (MMul scalar keep)
+      end
+  end.
+
+Lemma defined_operands rho l s :
+  shape_chain (map (shp rho) l) = Some s -> Forall (fun e => exists sh, shp rho e = Some sh) l.
+Proof.
+  revert s. induction l as [|x l IH]; intros s Hs; [constructor|].
+  destruct l as [|y l].
+  - cbn in Hs. constructor; [eauto | constructor].
+  - change (map (shp rho) (x :: y :: l)) with (shp rho x :: shp rho y :: map (shp rho) l) in Hs.
+    rewrite shape_chain_cons in Hs. apply prod_shape_Some in Hs.
+    destruct Hs as (sa & sb & A & B & _). constructor; [eauto|]. eapply IH. exact B.
+Qed.
+
+Lemma shp_MMul' rho k fs : shp rho (MMul k fs) = shape_chain (map (shp rho) fs).
+Proof. unfold shp. cbn [sem fst]. now rewrite map_map. Qed.
+
+Lemma mul_body_value rho args res s :
+  mul_body args = Ok res ->
+  guard_mul_zero args = false -> guard_mul_scalar_ident args = false ->
+  shp rho (naive_mul args) = Some s ->
+  sv_eq (sem rho res) (sem rho (naive_mul args)).
+Proof.
+  intros Hm Hgz Hgs Hs. rewrite naive_mul_eq in *.
+  assert (Hdef : Forall (fun e => exists sh, shp rho e = Some sh) (mats args)).
+  { rewrite shp_MMul' in Hs. eapply defined_operands; eauto. }
+  unfold mul_body in Hm. unfold guard_mul_scalar_ident in Hgs.
+  pose proof (expand_sv rho args e1 [] Hdef) as Hexp.
+  destruct (expand_mul args e1 []) as [scalar expanded] eqn:Ee. cbn [fst snd app] in Hexp.
+  assert (Hfin : sv_eq (scale_sv scalar (chain rho expanded)) (sem rho (MMul (Kargs args) (mats args)))).
+  { eapply sv_eq_trans; [exact Hexp|].
+    eapply sv_eq_trans; [|apply sv_eq_sym, sem_MMul_sveq]. apply scale_sv_eq. ring. }
+  assert (Hsh : fst (chain rho expanded) = Some s).
+  { destruct Hfin as [E _]. cbn [scale_sv fst] in E. unfold shp in Hs. congruence. }
+  destruct (check_matching_mul_sizes expanded) as [[]| | |] eqn:Ec; cbn [bind] in Hm; try discriminate.
+  pose proof (check_mul_nonempty _ Ec) as Hne.
+  unfold guard_mul_zero in Hgz. destruct (first_zero_arg args); [discriminate|].
+  destruct (foldM mul_step expanded _) as [st| | |] eqn:Ef; cbn [bind] in Hm; try discriminate.
+  assert (HI0 : mul_inv rho [] {| m_keep := []; m_diag := None; m_dense := None; m_ident := None |}).
+  { split; [now left|]. split; [intros H; exfalso; apply H; reflexivity|].
+    intros _. split; [reflexivity|]. left. split; reflexivity. }
+  pose proof (mul_loop_inv rho expanded s [] _ st HI0 Hsh Ef) as (Hone & HB & HC). cbn [app] in *.
+  eapply sv_eq_trans; [|exact Hfin].
+  destruct (flush st) as [|x [|y l]] eqn:EL.
+  - (* only identity matrices *)
+    destruct (HC eq_refl) as [Hall [[E0 _]|[_ (n & Hn & E)]]]; [congruence|].
+    rewrite Hn in Hm. inversion Hm; subst res.
+    rewrite Hall in Hgs. cbn [andb] in Hgs. apply negb_false_iff, e_eqb_eq in Hgs. subst scalar.
+    eapply sv_eq_trans; [|apply sv_eq_sym, scale_sv_one].
+    apply sv_eq_sym. exact E.
+  - destruct (HB ltac:(discriminate)) as [_ E]. rewrite chain_single in E.
+    destruct (e_eqb scalar e1) eqn:Es.
+    + inversion Hm; subst res. apply e_eqb_eq in Es. subst scalar.
+      eapply sv_eq_trans; [|apply sv_eq_sym, scale_sv_one]. apply sv_eq_sym. exact E.
+    + inversion Hm; subst res.
+      eapply sv_eq_trans; [apply sem_MMul_sveq|]. apply scale_sv_cong. rewrite chain_single.
+      apply sv_eq_sym. exact E.
+  - destruct (HB ltac:(discriminate)) as [_ E].
+    assert (Hres : res = MMul scalar (x :: y :: l)) by (destruct (m_ident st); inversion Hm; reflexivity).
+    subst res. eapply sv_eq_trans; [apply sem_MMul_sveq|]. apply scale_sv_cong.
+    apply sv_eq_sym. exact E.
+Qed.
+
 Theorem matrix_mul_value rho args res s :
   matrix_mul args = Ok res ->
   guard_mul_zero args = false -> guard_mul_scalar_ident args = false ->
@@ -333,26 +410,12 @@ Theorem matrix_mul_value rho args res s :
   forall i j, i < fst s -> j < snd s -> val rho res i j = val rho (naive_mul args) i j.
 Proof.
   intros Hm Hgz Hgs Hs. apply sv_eq_value; [|exact Hs].
-  rewrite naive_mul_eq in *.
-  assert (Hdef : Forall (fun e => exists sh, shp rho e = Some sh) (mats args)).
-  { unfold shp in Hs. cbn [sem fst] in Hs. rewrite map_map in Hs.
-    clear - Hs. revert s Hs. generalize (mats args) as l. induction l as [|x l IH]; intros s Hs; [constructor|].
-    cbn [map] in Hs. destruct l as [|y l].
-    - cbn in Hs. constructor; [eauto | constructor].
-    - change (map (fun x0 => fst (sem rho x0)) (y :: l)) with (fst (sem rho y) :: map (fun x0 => fst (sem rho x0)) l) in Hs.
-      rewrite shape_chain_cons in Hs. apply prod_shape_Some in Hs.
-      destruct Hs as (sa & sb & A & B & _). constructor; [eauto|]. eapply IH. exact B. }
-  unfold matrix_mul in Hm.
   destruct args as [|a0 args']; [discriminate|].
-  destruct a0 as [q0|e0'], args' as [|a1 args''];
-    try discriminate.
+  destruct a0 as [q0|e0'], args' as [|a1 args'']; try discriminate.
+  - eapply mul_body_value; eauto.
   - (* a single matrix argument *)
-    inversion Hm; subst res. cbn [Kargs mats fold_right flat_map app].
+    inversion Hm; subst res. rewrite naive_mul_eq. cbn [Kargs mats fold_right flat_map app].
     eapply sv_eq_trans; [|apply sv_eq_sym, sem_MMul_sveq]. rewrite chain_single.
     apply sv_eq_sym, scale_sv_one.
-  - (* at least two arguments, first a scalar *)
-    set (args := AScal q0 :: a1 :: args'') in *.
-    revert Hm Hgz Hgs Hdef Hs. generalize args. clear. intros args Hm Hgz Hgs Hdef Hs.
-    admit.
-  - admit.
-Admitted.
+  - eapply mul_body_value; eauto.
+Qed.
